@@ -59,7 +59,8 @@ LawOf(rx, env) == [type |-> rx.type, re |-> rx.re, k |-> env.p[rx.ki],
                    s1 |-> rx.s1, d |-> rx.d]
 RateTree(rx) == IF IsLaw(rx) THEN LawExpr(rx) ELSE rx.e
 \* the tree of a built-in law means the documented closed form
-TreeIsLaw(rx, env) == IsLaw(rx) => Eval(LawExpr(rx), env) = QV(RL!Det(LawOf(rx, env), env.x))
+\* (a value outside the 32-bit-safe range of Expr!Eval has status # "ok" and is not compared)
+TreeIsLaw(rx, env) == (IsLaw(rx) /\ Eval(LawExpr(rx), env).st = "ok") => Eval(LawExpr(rx), env) = QV(RL!Det(LawOf(rx, env), env.x))
 
 \* ---------------------------------------------------------------- closed-form derivatives of the built-in laws
 RECURSIVE MonoD(_, _, _, _)     \* d/dx_j of PROD x_s^m_s
